@@ -301,20 +301,21 @@ Proof.
 Qed.
 
 (* half-integers: the functional equation Gamma(x+1) = x Gamma(x) at x = k/2 together with
-   Gamma(1/2) = sqrt(pi) (coefficient 1) determines the coefficient of sqrt(pi).  With the 32-bit
-   product of gamma_multiple_2 it holds exactly for -19 <= k <= 19 ... *)
-Definition gamma_half_step (k : Z) : bool :=
-  Qeq_bool (gamma_half (k + 2)) ((k # 2) * gamma_half k).
+   Gamma(1/2) = sqrt(pi) (coefficient 1) determines the coefficient of sqrt(pi): the closed form
+   of gamma_multiple_2 satisfies both for every odd k (GammaProofs.v); here a kernel sweep -59 <= k <= 59 *)
+Definition gamma_half_step_with (mul : Z -> Z -> Z) (k : Z) : bool :=
+  Qeq_bool (gamma_half_with mul (k + 2)) ((k # 2) * gamma_half_with mul k).
+Definition gamma_half_step (k : Z) : bool := gamma_half_step_with Z.mul k.
 Definition odd_range (lo : Z) (count : nat) : list Z := map (fun i => lo + 2 * Z.of_nat i) (seq 0 count).
 
-Theorem gamma_half_guarded :
+Theorem gamma_half_exact :
   Qeq_bool (gamma_half 1) 1 = true
-  /\ forallb gamma_half_step (odd_range (-19) 20) = true.
+  /\ forallb gamma_half_step (odd_range (-59) 59) = true.
 Proof. split; vm_compute; reflexivity. Qed.
 
-(* ... and fails beyond: Gamma(23/2) <> (21/2) Gamma(21/2) in the model (int overflow of 21!!) *)
-Theorem gamma_half_refuted :
-  gamma_half_step 21 = false /\ gamma_half_step (-21) = false.
+(* for the record: the 32-bit product of the code before the repair broke the equation at 21/2 *)
+Theorem gamma_half_int32_refuted :
+  gamma_half_step_with jmul 21 = false /\ gamma_half_step_with jmul (-21) = false.
 Proof. split; vm_compute; reflexivity. Qed.
 
 (* ------------------------------------------------------------------ primepi *)
@@ -342,20 +343,22 @@ Proof.
   - apply (no_divisor_spec (Z.to_nat p) 2 p); auto; lia.
 Qed.
 
-(* below 2^32 primepi counts the primes up to n; negative arguments give 0 *)
+(* below 2^32 primepi counts the primes up to n; negative arguments give 0; larger arguments are
+   rejected (they were truncated to 32 bits before the repair) *)
 Theorem primepi_exact n :
-  (n < 0 -> primepi_int n = 0)
-  /\ (0 <= n < 4294967296 -> primepi_int n = Z.of_nat (length (primes_upto n))).
+  (n < 0 -> primepi_int n = PPOk 0)
+  /\ (0 <= n < 4294967296 -> primepi_int n = PPOk (Z.of_nat (length (primes_upto n))))
+  /\ (4294967296 <= n -> primepi_int n = PPTooLarge \/ primepi_int n = PPOverflow).
 Proof.
-  unfold primepi_int. split; intros H.
+  unfold primepi_int. repeat split; intros H.
   - destruct (n <? 0) eqn:A; auto. apply Z.ltb_ge in A. lia.
-  - destruct (n <? 0) eqn:A; [ apply Z.ltb_lt in A; lia | ]. rewrite Z.mod_small by lia. reflexivity.
+  - destruct (n <? 0) eqn:A; [ apply Z.ltb_lt in A; lia | ].
+    destruct (18446744073709551615 <? n) eqn:B; [ apply Z.ltb_lt in B; lia | ].
+    destruct (4294967295 <? n) eqn:C; [ apply Z.ltb_lt in C; lia | ]. reflexivity.
+  - destruct (n <? 0) eqn:A; [ apply Z.ltb_lt in A; lia | ].
+    destruct (18446744073709551615 <? n) eqn:B; auto.
+    destruct (4294967295 <? n) eqn:C; auto. apply Z.ltb_ge in C. lia.
 Qed.
-
-(* the 32-bit cast: primepi(2^32 + 10) = 4, fewer than the primes up to 11 *)
-Theorem primepi_refuted :
-  exists n, 11 <= n /\ primepi_int n < Z.of_nat (length (primes_upto 11)).
-Proof. exists 4294967306. split; [ lia | vm_compute; reflexivity ]. Qed.
 
 Theorem primorial_exact n :
   (0 < n -> primorial_int n = Some (fold_left Z.mul (primes_upto n) 1))
